@@ -42,8 +42,10 @@ LEVEL_KEYS = {
     "x": [0.5, 1.5, "<NA>", -2.25],         # float keys, one of them missing (NaN label; written "<NA>" in traces)
     "r": [0, 10, 20, 30],                   # load cases numbered by a range (a single-level operand may carry a RangeIndex)
     "t": ["t:0", "t:60", "t:300", "t:360"],  # local time stamps (time-zone aware, across a DST switch); "t:<minutes>" in traces
+    "level_0": [4, 5, 6],                   # the name reset_index() gives an unnamed level
+    "level_1": ["p", "q"],
 }
-NAMES = ["a", "b", "c", "d", None, "from", "to", "", "iv", "x", "r", "t"]
+NAMES = ["a", "b", "c", "d", None, "from", "to", "", "iv", "x", "r", "t", "level_0", "level_1"]
 T0 = pd.Timestamp("2024-03-30 21:00", tz="Europe/Berlin")
 
 
@@ -314,9 +316,9 @@ def generate(prop, rng, tier):
         elif r < 0.78:
             steps.append({"op": "bc_scalar", "obj": rng.randrange(64), "scalar": rng.choice([5.0, -1.5, 0.0]),
                           "as": rng.choice(["float", "int", "np", "0d"])})
-        elif r < 0.80:
+        elif r < 0.83:
             n_c = rng.randint(1, 4)
-            fk = rng.choice(["scalar", "scalar", "series", "int"])
+            fk = rng.choice(["scalar", "scalar", "series", "int", "same_index", "equal_index"])
             n_f = rng.randint(1, 3)
             steps.append({"op": "lc", "calls": [rng.choice(["scale", "shift"]) for _ in range(rng.randint(1, 3))],
                           "cycle_keys": rng.sample([0, 1, 2, 3, 7], n_c), "cycle_level": rng.choice(["cycle_number", None, "c"]),
@@ -1077,6 +1079,14 @@ def _lc_step(st, k, out, log):
         fkeys = [int(x) for x in st["factor_keys"]][:len(fvals)]
         factor = pd.Series(fvals[:len(fkeys)], index=pd.Index(fkeys, name=st.get("factor_level", "element_id")), name="f")
         per = dict(zip(fkeys, fvals))
+    elif fk in ("same_index", "equal_index") and st.get("cycle_level") is None:
+        out.count("skipped:two_unnamed_levels")      # unnamed levels are never "the same level": no single reading
+        return True
+    elif fk in ("same_index", "equal_index"):
+        # one factor per cycle: a Series on the collective's own Index object, or on an equal index of its own
+        per_cycle = {c: fvals[q % len(fvals)] + q for q, c in enumerate(ck)}
+        factor = pd.Series([per_cycle[c] for c in ck], index=coll.index if fk == "same_index" else pd.Index(ck, name=st.get("cycle_level")), name="f")
+        per = None
     elif fk == "int" and fvals[0] == int(fvals[0]):
         factor, per = int(fvals[0]), None
     else:
@@ -1103,7 +1113,9 @@ def _lc_step(st, k, out, log):
         seen = set()
         for r, gf, gt in zip(rows, got_from, got_to):
             c = int(r[pc])
-            if per is None:
+            if fk in ("same_index", "equal_index"):
+                f, key = per_cycle.get(c), (c,)
+            elif per is None:
                 f, key = float(factor), (c,)
             else:
                 e = [int(x) for q, x in enumerate(r) if q != pc][0]
